@@ -72,10 +72,13 @@ func Load(o LoadOpts) (*Prog, error) {
 			packages.NeedTypes | packages.NeedSyntax | packages.NeedTypesInfo | packages.NeedTypesSizes | packages.NeedModule,
 		Dir:     o.RepoDir,
 		Env:     env,
-		Overlay: o.Overlay,
 	}
 	if o.Tags != "" {
 		cfg.BuildFlags = []string{"-tags=" + o.Tags}
+	}
+	if os.Getenv("PROMVERIF_FROM_SOURCE") != "" {
+		// Type-check every dependency from source in-process: needs no compiler run / build cache.
+		cfg.Mode |= packages.NeedDeps
 	}
 	pkgs, err := packages.Load(cfg, o.Patterns...)
 	if err != nil {
@@ -105,6 +108,11 @@ func Load(o LoadOpts) (*Prog, error) {
 		return nil, fmt.Errorf("no module packages loaded for %v", o.Patterns)
 	}
 	sort.Slice(p.Pkgs, func(i, j int) bool { return p.Pkgs[i].PkgPath < p.Pkgs[j].PkgPath })
+	if len(o.Overlay) > 0 {
+		if err := p.applyOverlay(o.Overlay); err != nil {
+			return nil, err
+		}
+	}
 	var walk func(tp *types.Package)
 	walk = func(tp *types.Package) {
 		if tp == nil || p.allTypes[tp.Path()] != nil {
